@@ -1162,8 +1162,8 @@ class PDSLabelEncoder(ODLEncoder):
                         ):
                             return False
 
-        # Item 2, no repeated keys:
-        keys = list(group.keys())
+        # Item 2, no repeated keys (as they will be written: upper-cased):
+        keys = [str(k).upper() for k in group.keys()]
         if len(keys) != len(set(keys)):
             return False
 
